@@ -3,6 +3,7 @@ module verifharness
 go 1.23.0
 
 require (
+	github.com/Masterminds/semver/v3 v3.3.1
 	github.com/coreruleset/crs-toolchain/v2 v2.0.0
 	github.com/itchyny/rassemble-go v0.1.2
 	github.com/rs/zerolog v1.34.0
@@ -12,7 +13,6 @@ require (
 	code.gitea.io/sdk/gitea v0.20.0 // indirect
 	dario.cat/mergo v1.0.1 // indirect
 	github.com/42wim/httpsig v1.2.1 // indirect
-	github.com/Masterminds/semver/v3 v3.3.1 // indirect
 	github.com/creativeprojects/go-selfupdate v1.4.1 // indirect
 	github.com/go-fed/httpsig v1.1.0 // indirect
 	github.com/google/go-github/v30 v30.1.0 // indirect
